@@ -647,6 +647,7 @@ func (m *Machine) visit(fr *frame, instr ssa.Instruction) cont {
 		*p = zero(in.Type().(*types.Pointer).Elem())
 		fr.set(in, p)
 	case *ssa.MakeSlice:
+		m.symbolicMakeGuard(fr, fr.get(in.Len)) // model_makeguard.go
 		ln := int64(m.concretizeInt(fr.get(in.Len), "make([]T) len"))
 		cp := int64(m.concretizeInt(fr.get(in.Cap), "make([]T) cap"))
 		if ln < 0 || cp < ln {
